@@ -244,6 +244,11 @@ pub fn status_byte(sc: ctap2::StatusCode) -> u8 {
     sc.into()
 }
 
+/// StatusCode is neither Clone nor Copy: recover its byte by comparison.
+pub fn status_byte_ref(sc: &ctap2::StatusCode) -> u8 {
+    (0..=255u8).find(|v| &ctap2::StatusCode::from(*v) == sc).unwrap_or(0x7f)
+}
+
 pub fn url(s: &str) -> url::Url {
     url::Url::parse(s).expect("harness builds valid URLs")
 }
